@@ -399,10 +399,10 @@ def flock_cases(ctx) -> Tuple[List[Driver], List[int]]:
     # (3) holder death / clock jumps / open failures at every point (environment moves are free)
     scripts3 = {0: [["acq", 0, True, 20], ["rel", 0]], 1: [["acq", 1, True, 20], ["rel", 1]],
                 "E": [["die", [0]], ["tick", 25]]}
-    out += explore(lambda: flock_driver(ctx, scripts3), 1, 600 if quick else 3000, free_actors=("E",))
+    out += explore(lambda: flock_driver(ctx, scripts3), 1, 450 if quick else 3000, free_actors=("E",))
     scripts3b = {0: [["acq", 0, True, 20], ["rel", 0]], 1: [["acq", 1, True, 20], ["rel", 1]],
                  "E": [["openerr", 1], ["openerr", 0]]}
-    out += explore(lambda: flock_driver(ctx, scripts3b), 1, 300 if quick else 1500, free_actors=("E",))
+    out += explore(lambda: flock_driver(ctx, scripts3b), 1, 250 if quick else 1500, free_actors=("E",))
     n3 = len(out)
     # (4) random schedules of 3 contenders with deaths, ticks, open errors
     rng = ctx.rng
@@ -474,23 +474,23 @@ def s3_cases(ctx) -> Dict[int, List[Driver]]:
     lease = 2
     scripts = {0: [["call", 0, "acquire", 1000], ["call", 0, "is_held"], ["call", 0, "release"]],
                1: [["call", 1, "acquire", 1000], ["call", 1, "is_held"], ["call", 1, "release"]]}
-    by_lease[2] += explore(lambda: s3_driver(ctx, scripts, lease), 3, 800 if quick else 6000)
+    by_lease[2] += explore(lambda: s3_driver(ctx, scripts, lease), 3, 600 if quick else 6000)
     n1 = len(by_lease[2])
     scripts_e = dict(scripts)
     scripts_e["E"] = [["tick", lease * 1000 + 1]]
-    by_lease[2] += explore(lambda: s3_driver(ctx, scripts_e, lease), 2, 800 if quick else 5000, free_actors=("E",))
+    by_lease[2] += explore(lambda: s3_driver(ctx, scripts_e, lease), 2, 600 if quick else 5000, free_actors=("E",))
     n2 = len(by_lease[2])
     scripts_r = {0: [["call", 0, "acquire", 1000], ["call", 0, "is_held"], ["call", 0, "release"]],
                  1: [["call", 1, "acquire", 3000], ["call", 1, "is_held"]],
                  "E": [["tick", lease * 1000 + 1], ["renew", 0, "none"], ["renew", 1, "none"]]}
-    by_lease[2] += explore(lambda: s3_driver(ctx, scripts_r, lease), 1, 800 if quick else 4000, free_actors=("E",))
+    by_lease[2] += explore(lambda: s3_driver(ctx, scripts_r, lease), 1, 600 if quick else 4000, free_actors=("E",))
     n3 = len(by_lease[2])
     # (1b) three clients, one releasing: every placement of the lease lapse (this is where the search meets F-C19
     #      on its own: release's GET, pause past the lease, takeover, delayed DELETE, create)
     scripts_3 = {0: [["call", 0, "acquire", 1000], ["call", 0, "release"]],
                  1: [["call", 1, "acquire", 1000]], 2: [["call", 2, "acquire", 1000]],
                  "E": [["tick", lease * 1000 + 1]]}
-    by_lease[2] += explore(lambda: s3_driver(ctx, scripts_3, lease), 2, 1200 if quick else 5000, free_actors=("E",))
+    by_lease[2] += explore(lambda: s3_driver(ctx, scripts_3, lease), 2, 900 if quick else 5000, free_actors=("E",))
     n4 = len(by_lease[2])
     # (2) random: 3 clients, faults, renewals, deaths, clock jumps
     clients = [0, 1, 2]
